@@ -499,7 +499,7 @@ func TestC04(t *testing.T) {
 	p.Install()
 	defer sched.Uninstall()
 
-	n := r.N(260, 7000)
+	n := r.N(260, 3000)
 	if v := os.Getenv("C04_HANG_AFTER_S"); v != "" {
 		var k int
 		fmt.Sscan(v, &k)
